@@ -1,5 +1,6 @@
 """C06 -- loop and if-branches only appear where the language allows them (spec/Placement.tla)."""
 import json
+import zlib
 
 from . import common, flatcheck
 
@@ -14,15 +15,37 @@ def to_items(case):
             out.append("Gz")
         elif k == "L":
             out.append("Lq%d" % i)
+        elif k == "V":
+            out.append("Vw%d" % i)      # a declaration statement with a name of its own
         else:
             out.append(k)
-    return out + ["Lz"]
+    # (the label the gotos target ends the body; without gotos the LAST token is the last statement of the function)
+    return out + (["Lz"] if "G" in case["b"] else [])
+
+
+# Layouts (no part of the rule, docs/notes-flat.md): result type + `return: x` as the END of every body, a parameter,
+# comments at the end of every line, no newline at the end of the file
+LAYOUTS = [
+    {},
+    {"ret": True},
+    {"comments": True, "nonl": True},
+    {"pparam": True, "ret": True, "comments": True},
+    {"nonl": True},
+]
+_state = {"seed": 0}
 
 
 def prepare(case):
     c = dict(case)
     c["tokens"] = case["b"]
     c["b"] = to_items(case)
+    lay = dict(LAYOUTS[(zlib.crc32(" ".join(case["b"]).encode()) + _state["seed"]) % len(LAYOUTS)])
+    if "F" in case["b"] and "G" in case["b"]:
+        # every function but the last ends with the label the gotos target (on the line of the F item); without gotos
+        # the last statement of a function is whatever the body ends with
+        lay["end_label"] = "z"
+    if lay:
+        c["layout"] = lay
     return c
 
 
@@ -60,7 +83,11 @@ CFG = {
     "module": "MC_Placement",
     # quick: every body up to 6 tokens, and every body up to 8 tokens that begins with an if statement (no goto / label tokens):
     # `if c { s } else { loop }` has 8 tokens
-    "mc_cfg": {"quick": ["MC_Placement_quick.cfg", "MC_Placement_ifelse_quick.cfg"], "thorough": "MC_Placement_thorough.cfg"},
+    # dimension audit (docs/notes-flat.md): fns = modules of two (thorough: three) function bodies (the linter lives as long
+    # as the compiler, the syntax analyzer is made per declaration); kinds = call and declaration statements in every place
+    "mc_cfg": {"quick": ["MC_Placement_quick.cfg", "MC_Placement_ifelse_quick.cfg", "MC_Placement_fns_quick.cfg",
+                         "MC_Placement_kinds_quick.cfg"],
+               "thorough": ["MC_Placement_thorough.cfg", "MC_Placement_fns_thorough.cfg", "MC_Placement_kinds_thorough.cfg"]},
     "workers": 8,
     "prepare": prepare,
     "compare": compare,
@@ -78,9 +105,13 @@ CFG = {
                  "two flags against the structural rule, and emits every sequence; each is rendered (one token per line) and "
                  "compiled; E800/E801/E840 (item, code) sets, the verdict and the L1800 lints are compared with the rule. "
                  "Random statement trees (<= 30 statements, depth 5) are recorded with `visit` events and validated by TLC. "
+                 "Dimension audit: modules of two / three function bodies (token F; the linter's flags are threaded through the module), "
+                 "call and declaration statements in every place (tokens M, V), no label after the last statement unless a goto needs it "
+                 "(the LAST statement of a function body is every kind of statement), layouts (result type with `return: x` as last "
+                 "statement, parameter, comments, no final newline); every third random run has 1-3 functions, calls, declarations, nesting up to 8. "
                  "Non-trivial = distinct sequences containing an if or a block together with a loop or an if.",
     "assumptions": [
-        "every goto targets a label appended at the end of the body, labels have unique names: only placement can be wrong",
+        "every goto targets a label appended at the end of its function body (only when the body has a goto), labels have unique names: only placement can be wrong",
         "a statement rejected with E840 is not examined further (cascade policy): diagnostics inside it are neither demanded nor allowed",
         "lints are observable only for accepted programs (the driver takes lints after a successful resolve)",
     ],
@@ -88,6 +119,7 @@ CFG = {
 
 
 def run(rep, tier, seed, selftest):
+    _state["seed"] = seed
     return flatcheck.run_flat(rep, tier, seed, selftest or tier == "thorough", CFG)
 
 
